@@ -19,6 +19,7 @@ EXPECTED_KEYS = ("1.4", "1.5", "2.0", "2.1", "2.2")
 def run(ctx: Ctx, chk) -> None:
     chk.assume("A1", "A3", "A5")
     chk.run_rule(table_v, ctx)
+    chk.run_rule(select_spelling, ctx)
     chk.run_rule(select1, ctx)
     chk.run_rule(c03.state1, ctx)
     chk.run_rule(copies1, ctx)
@@ -1024,3 +1025,30 @@ def gate_esc(ctx: Ctx, chk) -> None:
             chk.instance(rule)
             chk.refute(rule, f"{f.fq}::with::{norm(w.items[0].context_expr)[:50]}", f"the `with` statement in {f.qualname} can swallow the refusal of an unsupported type ({why}): the type is then accepted (yielded as handled) instead of refused", ctx.loc(fi, w))
     chk.notes[f"{rule}:handlers"] = n
+
+
+def select_spelling(ctx: Ctx, chk) -> None:
+    rule = "SELECT-SPELL"
+    chk.rule(rule, "no path of get_protocol hands out a table entry because the *spelling* of the reported version starts with / ends with / contains a bare table key: '2.10' starts with '2.1' and '1.40' with '1.4', so a prefix test selects 2.1 where the newest protocol not above 2.10 is 2.2; every selection goes through the version comparison (SELECT-1)")
+    f = ctx.func(GET)
+    param = f.positional_params[0]
+    n = 0
+    for node in ctx.own_nodes(f):
+        tests = []
+        if isinstance(node, (ast.If, ast.IfExp, ast.While)):
+            tests = [node.test]
+        elif isinstance(node, ast.comprehension):
+            tests = list(node.ifs)
+        for t in tests:
+            n += 1
+            for x in ast.walk(t):
+                bad = None
+                if isinstance(x, ast.Call) and isinstance(x.func, ast.Attribute) and x.func.attr in ("startswith", "endswith", "find", "index", "count", "rfind") and isinstance(x.func.value, ast.Name) and x.func.value.id == param and x.args and isinstance(x.args[0], (ast.Name, ast.Constant)):
+                    bad = x
+                elif isinstance(x, ast.Compare) and len(x.ops) == 1 and isinstance(x.ops[0], (ast.In, ast.NotIn)) and isinstance(x.comparators[0], ast.Name) and x.comparators[0].id == param and isinstance(x.left, (ast.Name, ast.Constant)):
+                    bad = x
+                if bad is not None:
+                    chk.instance(rule)
+                    chk.refute(rule, f"{f.fq}::{norm(bad)[:80]}", f"get_protocol decides by `{norm(bad)[:80]}` - a test on the spelling of the reported version against a bare key: '2.10' matches the key '2.1' (and '1.40' the key '1.4'), the protocol chosen is older than the newest one that does not exceed the report", ctx.loc(f, bad))
+    chk.instance(rule)
+    chk.ok(rule, f"{f.fq}::tests", f"{n} test(s) in get_protocol examined: none compares the spelling of the report with a bare key", ctx.loc(f, f.node), sample=False)
